@@ -78,6 +78,8 @@ type poolSpec struct {
 	// YAMLShape: nested maps as yaml.v2 produces them (map[interface{}]interface{}, the acceptance
 	// tests' path) instead of viper's map[string]interface{} (the CLI's path)
 	YAMLShape bool
+	// Preload: `preload: true` on the (http) ammo provider - the decoded entries are kept and handed out again
+	Preload bool
 }
 
 func yamlShape(v interface{}) interface{} {
@@ -135,6 +137,9 @@ func (ps poolSpec) configMap() map[string]interface{} {
 	ammo := map[string]interface{}{"type": ps.AmmoType, "file": ps.AmmoFile}
 	if ps.ContinueOnError {
 		ammo["continueonerror"] = true
+	}
+	if ps.Preload {
+		ammo["preload"] = true
 	}
 	times := ps.Shots
 	if ps.Shots == 0 {
